@@ -6,6 +6,7 @@ import Neutrino.Lemmas.LruRefine
 import Neutrino.Model.LockObj
 import Neutrino.Gen.Lru
 import Neutrino.Lemmas.LruOracle
+import Neutrino.Lemmas.LruArith
 namespace Neutrino.Lru
 
 /-- outputs of a whole operation sequence -/
@@ -181,6 +182,92 @@ example : obsClause [] (.put 7 9 3) (.okPut true)
     ⟨6, 2, [⟨4, 3, 2⟩, ⟨1, 2, 4⟩], [1, 4], true⟩ ⟨7, 2, [⟨7, 9, 3⟩, ⟨1, 2, 4⟩], [1, 7], true⟩ = some "evicted-not-lru" := by decide
 example : obsClause [] (.get 1) .notFound
     ⟨6, 2, [⟨4, 3, 2⟩, ⟨1, 2, 4⟩], [1, 4], true⟩ ⟨6, 2, [⟨4, 3, 2⟩, ⟨1, 2, 4⟩], [1, 4], true⟩ = some "lookup-lost" := by decide
+
+
+/-- `dumpShape` names a violated clause exactly when `dumpOk` fails (the report's `shape=`
+is never "ok" on a failure and never anything else on a pass) -/
+theorem C16_dump_shape (cap : Nat) (d : Dump) : dumpOk cap d = true ↔ dumpShape cap d = "ok" := by
+  unfold dumpOk dumpShape
+  by_cases h1 : total d.filo > cap
+  · have : ¬ (d.size ≤ cap ∧ d.size = total d.filo) := by omega
+    simp only [h1, ↓reduceIte, Bool.and_eq_true, decide_eq_true_eq, beq_iff_eq]
+    constructor
+    · intro h; exact absurd ⟨h.1.1.1.1.1, h.1.1.1.1.2⟩ this
+    · intro h; exact absurd h (by decide)
+  · simp only [h1, ↓reduceIte]
+    by_cases h2 : d.size = total d.filo
+    · have hle : total d.filo ≤ cap := by omega
+      by_cases h3 : d.len = d.filo.length
+      · by_cases h4 : nodupKeys (d.filo.map (·.key)) = true
+        · by_cases h5 : d.keys = sortNat (d.filo.map (·.key))
+          · cases h6 : d.rev <;> simp [h2, hle, h3, h4, h5, h1]
+          · simp [h2, hle, h3, h4, h5, h1]
+        · simp [h2, hle, h3, h4, h1]
+      · simp [h2, hle, h3, h1]
+    · simp [h2, h1]
+
+/-- the state the round-g seed reached (two entries of 2^63-1 and 2^63+5 resident in a cache of
+capacity 2^63+1, `Size()` = 4) is rejected, and named -/
+example : dumpOk 9223372036854775809 ⟨4, 2, [⟨1, 10, 9223372036854775807⟩, ⟨0, 9, 9223372036854775813⟩], [0, 1], true⟩ = false ∧
+    dumpShape 9223372036854775809 ⟨4, 2, [⟨1, 10, 9223372036854775807⟩, ⟨0, 9, 9223372036854775813⟩], [0, 1], true⟩
+      = "resident-total-exceeds-capacity" := by decide
+
+/-! ## The counter arithmetic never wraps -/
+
+/-- **No overflow.**  For every capacity below 2^64 and every operation sequence from
+the empty cache — entries of ANY size, sizes at and beyond the capacity and at the top
+of the `uint64` range included — every `uint64` operation the Go code performs in
+`Put`, `evict` and `LoadAndDelete` (`runArith`: each evaluation of the loop condition's
+`c.capacity - c.size`, each `c.size -= es`, `c.size += vs`, and the error path's
+`needed - (c.capacity - c.size)`, with the operands they have at that moment) has
+operands and exact result in `[0, 2^64)`: the machine word never wraps, so the model's
+exact `Nat` arithmetic IS the code's arithmetic.  (No hypothesis on the entry sizes is
+needed: a size above the capacity is refused by a comparison before any arithmetic.) -/
+theorem C16_no_overflow (cap : Nat) (hcap : cap < two64) (ops : List Op) :
+    ∀ x ∈ runArith { cap := cap } ops, x.exact = true :=
+  runArith_exact _ (inv_init cap hcap) ops
+
+/-- the list is not empty or trivial: near the top of the range it contains operands above
+2^63, sums that reach the capacity 2^64-1 exactly, and the arithmetic of an eviction -/
+example : runArith { cap := 18446744073709551615 }
+      [.put 1 1 9223372036854775808, .put 2 2 9223372036854775807, .put 3 3 9223372036854775808, .del 2] =
+    [.sub 18446744073709551615 0, .add 0 9223372036854775808,
+     .sub 18446744073709551615 9223372036854775808, .add 9223372036854775808 9223372036854775807,
+     .sub 18446744073709551615 18446744073709551615, .sub 18446744073709551615 9223372036854775808,
+     .sub 18446744073709551615 9223372036854775807, .add 9223372036854775807 9223372036854775808,
+     .sub 18446744073709551615 9223372036854775807] := by decide
+
+/-- **The eviction loop's condition, with the machine word's wrap-around.**  The
+condition found in the source on this run (`Gen.Lru.evictCond`, translated from the
+`for` statement of `evict` as an expression over `uint64`, `+`/`-` wrapping at 2^64)
+holds exactly when the free space `capacity - size` is smaller than what is needed — the
+condition of the model's `evictLoop` — for ALL word values the invariant allows
+(`size ≤ capacity < 2^64`, `needed ≤ capacity`: the state invariant and `evict`'s
+up-front check). -/
+theorem C16_evict_condition (cap size needed : Nat) (hcap : cap < two64)
+    (hs : size ≤ cap) (hn : needed ≤ cap) :
+    Gen.Lru.evictCond.holds cap size needed ↔ sub64 cap size < needed := by
+  unfold Gen.Lru.evictCond
+  -- written for whichever equivalent form the source uses: unfold the expression, then the
+  -- wrap-around operations, split their cases, linear arithmetic
+  simp only [CmpExpr.holds, U64Expr.eval, gt_iff_lt, ge_iff_le]
+  simp only [wadd, wsub, sub64, two64] at *
+  repeat' split
+  all_goals omega
+
+/-- the "more readable" `size + needed > capacity` is NOT that condition: above 2^63 the
+sum wraps and the loop does not evict although the entry does not fit (here: free space
+2^63-1, needed 2^63, wrapped sum 0); the sum is an operation `C16_no_overflow` could not
+have covered -/
+theorem C16_evict_condition_counterexample :
+    ¬ (CmpExpr.gt (.add .size .needed) .cap).holds 18446744073709551615 9223372036854775808 9223372036854775808 ∧
+    sub64 18446744073709551615 9223372036854775808 < 9223372036854775808 ∧
+    (Arith.add 9223372036854775808 9223372036854775808).exact = false := by decide
+
+/-- the hypotheses of `C16_evict_condition` are met, with the condition true, at the top of the range -/
+example : ∃ cap size needed, cap < two64 ∧ size ≤ cap ∧ needed ≤ cap ∧ 0 < size ∧
+    Gen.Lru.evictCond.holds cap size needed :=
+  ⟨18446744073709551615, 9223372036854775808, 9223372036854775808, by decide, by decide, by decide, by decide, by decide⟩
 
 /-- The facts regenerated from cache/lru/lru.go on this run: every access to
 the index, the list and the counter in Put/Get/LoadAndDelete/Len/Size lies
